@@ -57,6 +57,21 @@ CLAIMS.update({
                 technique="exhaustive enumeration of encoder inputs on the real emitter; independent A32/T32 abstract machine cross-checked with llvm-mc"),
 })
 
+CLAIMS.update({
+    "C04": dict(engine=E2, ref="DESIGN.md §5 C04",
+                text="real crate code on real OS threads under a controlled scheduler (scheduling points at every mutex, atomic and OS call of the crate and at harness points): every schedule for 2 threads x all guard-kind/exit-path assignments, preemption-bounded for 3 threads and for 2 threads x 2 rounds; in every schedule at most one guard is alive, a preventer holder sees the original, an injector holder its own fake, waiters get their turn (no panic out of new()/prevent(), no deadlock), bytes restored at the end",
+                note="preemption bound and caps per scenario in evidence.coverage.bound; sequentially consistent interleavings of synchronisation operations",
+                technique="stateless DFS over thread schedules with iterative preemption bounding (CHESS style) on the real code"),
+    "C05": dict(engine=E3, ref="DESIGN.md §5 C05",
+                text="every operation sequence up to the depth over begin / calls caught inside or propagating out of the scope / scope end / user panic / outside call with 0-2 pending call-count expectations (fork per history: exit status decides abort vs panic, exactly one panic payload, restored bytes, lock reusable by the next lifetime); plus every schedule of the C04 harness in which a holder lets go by panicking while another thread waits",
+                note="library-raised installation failures (signature mismatch, null, boolean refusal, allocation exhaustion, mprotect failure) are explored by the refusal/fault histories listed in evidence when present",
+                technique="exhaustive enumeration of operation sequences with injected panics (crash points) on the real code, fork isolation; schedule exploration for the concurrent part"),
+    "C06": dict(engine=E3, ref="DESIGN.md §5 C06",
+                text="sequential: every sequence of matching / non-matching calls (caught or propagating), scope ends and panics up to the depth for N in 0..3 against a reference model; concurrent: k <= N+2 matching calls split over 1-3 caller threads under every schedule (3 callers: preemption-bounded), and 8/16 identical single-call threads with symmetry reduction; exactly min(k,N) admissions, scope-exit verdict and message in every schedule",
+                note="bounds and caps in evidence.coverage; the counter is the instrumented atomic of the scheduled mount",
+                technique="exhaustive enumeration of call sequences; stateless DFS over schedules with preemption bounding for the concurrent part"),
+})
+
 PENDING = {
     "C01": "engine E1", "C04": "engine E2", "C05": "engine E3/E2", "C06": "engine E3/E2", "C07": "engine E3",
     "C08": "engine E4", "C09": "engine E4", "C10": "engine E4/E1", "C11": "engine E1", "C13": "engine E1",
